@@ -252,3 +252,27 @@ def generate_c04(repo):
     return header, [(SCHEDULE.qual, str(e))]
   except (OSError, SyntaxError) as e:
     return header, [(SCHEDULE.qual, repr(e))]
+
+
+# ---------------------------------------------------------------------------------------------
+# C05: tearfree grafting combination (nested closure of _graft_with.update_fn)
+# ---------------------------------------------------------------------------------------------
+TFG = "precondition/tearfree/grafting.py"
+MAYBE_GRAFT = Fn("_graft_with.update_fn.maybe_graft", "tf_maybe_graft",
+                 [("nrm", "vec -> Q"), ("masked", "bool"), ("count", "Z"), ("start_preconditioning_step", "Z"),
+                  ("graft_upd", "vec"), ("base", "vec")], "option vec",
+                 subst={"_masked(base)": ("masked", "bool"), "state.count": ("count", "Z"),
+                        "graft_upd.shape == base.shape": ("(Nat.eqb (length graft_upd) (length base))", "bool")},
+                 calls={"jnp.linalg.norm": ("nrm", "vec->Q")}, partial=True)
+
+
+def generate_c05(repo):
+  from tools import py2v, py2v_float
+  header = ("From Precond Require Import Base.PyLib Base.QMat Base.PyFloat.\nOpen Scope Q_scope.\n")
+  try:
+    src = open(os.path.join(repo, TFG)).read()
+    return header + "\n" + py2v_float.translate(src, MAYBE_GRAFT) + "\n", []
+  except py2v.TranslationError as e:
+    return header, [(MAYBE_GRAFT.qual, str(e))]
+  except (OSError, SyntaxError) as e:
+    return header, [(MAYBE_GRAFT.qual, repr(e))]
